@@ -739,6 +739,10 @@ def carried_state(rep, idx, ef, els):
             its = [n.iter] if isinstance(n, (ast.For, ast.comprehension)) else []
             if isinstance(n, ast.Call) and isinstance(n.func, ast.Name) and n.func.id in ("list", "tuple", "sorted", "set", "dict") and n.args:
                 its.append(n.args[0])
+            # consumers that advance the iterators handed to them
+            if isinstance(n, ast.Call) and isinstance(n.func, ast.Name) and n.func.id in (
+                    "zip", "enumerate", "map", "filter", "sum", "any", "all", "min", "max", "next", "reduce", "Cat", "Array", "frozenset", "chain"):
+                its.extend(a.value if isinstance(a, ast.Starred) else a for a in n.args)
             for it in its:
                 if isinstance(it, ast.Attribute) and isinstance(it.value, ast.Name) and it.value.id == "self" and it.attr in shots:
                     rep.bad("C19.1", f.site, f"self.{it.attr}: one-shot iterator consumed by elaborate()",
@@ -980,6 +984,18 @@ def classify_recursion(f, call, idx=None):
                         any(isinstance(t_, ast.Name) and t_.id == e.id for t_ in n.targets[0].elts) and _depth < 3 and \
                         isinstance(n.value, (ast.Name, ast.Subscript, ast.Attribute)) and is_child(n.value, _depth + 1):
                     return True
+                # a component of a record looked up in a container of self:  window, name, _ = self._windows[id(x)]
+                if isinstance(n, ast.Assign) and len(n.targets) == 1 and isinstance(n.targets[0], ast.Tuple) and \
+                        any(isinstance(t_, ast.Name) and t_.id == e.id for t_ in n.targets[0].elts):
+                    v = n.value
+                    if isinstance(v, ast.Call) and isinstance(v.func, ast.Attribute) and v.func.attr == "get":
+                        v = v.func.value
+                    elif isinstance(v, ast.Subscript):
+                        v = v.value
+                    else:
+                        v = None
+                    if isinstance(v, ast.Attribute) and isinstance(v.value, ast.Name) and v.value.id == "self":
+                        return True
         if isinstance(e, ast.NamedExpr):
             return is_child(e.value)
         return False
